@@ -1,6 +1,6 @@
 (** C19 — proofs about the hand-written wire model: blob codecs under [blob_laws], the
     StreamedPSBT post-processing, and the generic registry round trip. *)
-From VLS Require Import Base.Codec Model.Wire.
+From VLS Require Import Base.Codec Base.Tlv Model.Wire.
 From Coq Require Import List Arith NArith Lia Bool.
 Import ListNotations.
 Open Scope N_scope.
@@ -211,15 +211,14 @@ Proof.
 Qed.
 
 (** The registry round trip: if no two arms of the dispatch share a type id and every message
-    has an arm under its own id whose decoder inverts the message's encoder, then
+    has an arm under its own id whose decoder inverts the message's encoder (consuming it all), then
     [from_vec (as_vec m)] is [m], for every well-formed message within the size limit. *)
 Theorem registry_roundtrip {M} (maxsz : N) (table : list (entry M)) (id_of : M -> N)
         (enc : M -> bytes) (wf : M -> bool) :
   NoDup (map e_id table) ->
   (forall m, wf m = true ->
      fits 2 (id_of m) = true /\
-     exists e, In e table /\ e_id e = id_of m /\
-               forall rest, e_dec e (enc m ++ rest) = Some (m, rest)) ->
+     exists e, In e table /\ e_id e = id_of m /\ e_dec e (enc m) = Some (m, [])) ->
   forall m, wf m = true ->
     lenN (as_vec_of id_of enc m) <= maxsz ->
     from_vec maxsz table (as_vec_of id_of enc m) = Some (Known m).
@@ -231,7 +230,7 @@ Proof.
   destruct (N.ltb_spec (lenN (enc_u16 (id_of m) ++ enc m)) 2) as [C|_]; [lia|].
   destruct (N.ltb_spec maxsz (lenN (enc_u16 (id_of m) ++ enc m))) as [C|_]; [lia|].
   rewrite rt_u16 by exact Hid. cbn [bind]. rewrite <- He, (lookup_nodup table Hnd e Hin).
-  rewrite <- (app_nil_r (enc m)). rewrite Hdec. reflexivity.
+  rewrite Hdec. reflexivity.
 Qed.
 
 (** ** framing *)
@@ -272,7 +271,7 @@ Proof.
 Qed.
 
 Theorem read_typed_frame {A} maxsz id (enc : A -> bytes) (dec : dec_t A) x rest :
-  maxsz < 4294967296 -> (forall r, dec (enc x ++ r) = Some (x, r)) -> fits 2 id = true ->
+  maxsz < 4294967296 -> dec (enc x) = Some (x, []) -> fits 2 id = true ->
   lenN (enc_u16 id ++ enc x) <= maxsz ->
   read_typed maxsz id dec (frame (enc_u16 id ++ enc x) ++ rest) = Some (x, rest).
 Proof.
@@ -284,7 +283,7 @@ Proof.
   destruct (N.ltb_spec maxsz (lenN (enc_u16 id ++ enc x))); [lia|].
   rewrite take_app by (unfold lenN; lia). cbn [bind].
   rewrite rt_u16 by exact Hid. cbn [bind]. rewrite N.eqb_refl.
-  rewrite <- (app_nil_r (enc x)). rewrite (Hrt []). reflexivity.
+  rewrite Hrt. reflexivity.
 Qed.
 
 (** The converse direction of the obligation, as a general fact: a message whose type id also
@@ -336,6 +335,14 @@ Ltac rt_one RT :=
       let H := fresh "Hf" in
       apply andb_true_iff in Hw; destruct Hw as [H Hw];
       rewrite (RT _ _ H); cbn [bind]
+  end.
+(** the last field when it is a TLV option stream (consumes the reader to the end) *)
+Ltac rt_last RTE :=
+  match goal with
+  | Hw : (_ && _) = true |- _ =>
+      let H := fresh "Hf" in
+      apply andb_true_iff in Hw; destruct Hw as [H Hw];
+      rewrite (RTE _ H); cbn [bind]
   end.
 Ltac rt_begin := rewrite <- ?app_assoc.
 Ltac rt_end := reflexivity.
